@@ -58,13 +58,16 @@ package tracing
 // every entry of the in-flight map is a task object filed under its own ID (so distinct keys hold distinct objects);
 // `<= allocTop`: the entry is an allocated object (true of every pointer value; the heap model has to be told)
 //@ pred c36Shape(t) = forall k uint64 :: (k in t.tracingTasks) ==> t.tracingTasks[k] != nil && t.tracingTasks[k] <= allocTop && t.tracingTasks[k].ID == k
+// the tag / milestone lists of distinct in-flight tasks never share a backing array (each list only ever grows by append
+// from nil), so appending to one task's list cannot rewrite another's
+//@ pred c36Sep(t) = (forall k uint64 :: (k in t.tracingTasks) ==> ref(t.tracingTasks[k].Tags) <= allocTop && ref(t.tracingTasks[k].Milestones) <= allocTop) && (forall k uint64, j uint64 :: (k in t.tracingTasks) && (j in t.tracingTasks) && k != j && ref(t.tracingTasks[k].Tags) != 0 ==> ref(t.tracingTasks[k].Tags) != ref(t.tracingTasks[j].Tags)) && (forall k uint64, j uint64 :: (k in t.tracingTasks) && (j in t.tracingTasks) && k != j && ref(t.tracingTasks[k].Milestones) != 0 ==> ref(t.tracingTasks[k].Milestones) != ref(t.tracingTasks[j].Milestones))
 // coupling with the abstract state, pointwise (s, r = Started[k], Ran[k] of the state the invariant is stated for)
 //@ pred c36KAbs(s, r) = r ==> s
 //@ pred c36KIn(t, k, s) = s ==> (k in t.tracingTasks)
 //@ pred c36KRec(t, k, s, r) = (k in t.tracingTasks) && s ==> (t.tracingTasks[k].toRecord <==> r)
 // an entry that exists only because a tag or milestone mentioned the ID (no StartTask yet) is not a running task:
 //@ pred c36KPh(t, k, s) = (k in t.tracingTasks) && !s ==> !t.tracingTasks[k].toRecord
-//@ pred c36Inv(t) = c36Shape(t) && (forall k uint64 :: c36KAbs(c36Started[k], c36Ran[k])) && (forall k uint64 :: c36KIn(t, k, c36Started[k])) && (forall k uint64 :: c36KRec(t, k, c36Started[k], c36Ran[k])) && (forall k uint64 :: c36KPh(t, k, c36Started[k]))
+//@ pred c36Inv(t) = c36Shape(t) && c36Sep(t) && (forall k uint64 :: c36KAbs(c36Started[k], c36Ran[k])) && (forall k uint64 :: c36KIn(t, k, c36Started[k])) && (forall k uint64 :: c36KRec(t, k, c36Started[k], c36Ran[k])) && (forall k uint64 :: c36KPh(t, k, c36Started[k]))
 
 // entries other than id: same keys, same objects (their fields are protected by the assigns clauses)
 //@ pred c36Others(t, id) = forall k uint64 :: k != id ==> ((k in t.tracingTasks) <==> old(k in t.tracingTasks)) && t.tracingTasks[k] == old(t.tracingTasks[k])
@@ -111,6 +114,8 @@ package tracing
 //@   ensures c36LogSame() && t.isTracing == old(t.isTracing)
 //@   label C36.start.inv.shape
 //@   ensures c36Shape(t)
+//@   label C36.start.inv.sep
+//@   ensures c36Sep(t)
 //@   label C36.start.inv.in
 //@   ensures forall k uint64 :: c36KIn(t, k, c36StartS(k, task.ID))
 //@   label C36.start.inv.torecord
@@ -131,6 +136,8 @@ package tracing
 //@   ensures c36AllSame(t) && c36LogSame()
 //@   label C36.starttracing.inv.shape
 //@   ensures c36Shape(t)
+//@   label C36.starttracing.inv.sep
+//@   ensures c36Sep(t)
 //@   label C36.starttracing.inv.torecord
 //@   ensures forall k uint64 :: c36KRec(t, k, c36Started[k], c36Ran[k] || c36Started[k])
 //@   label C36.starttracing.inv.placeholder
@@ -167,6 +174,10 @@ package tracing
 //@   ensures len(t.tracingTasks[tag.TaskID].Tags) == (old(tag.TaskID in t.tracingTasks) ? old(len(t.tracingTasks[tag.TaskID].Tags)) : 0) + 1 && c36TagEq(t.tracingTasks[tag.TaskID].Tags[len(t.tracingTasks[tag.TaskID].Tags) - 1], tag)
 //@   label C36.tag.prefix
 //@   ensures old(tag.TaskID in t.tracingTasks) ==> (forall i in 0..old(len(t.tracingTasks[tag.TaskID].Tags)) :: t.tracingTasks[tag.TaskID].Tags[i].ID == old(t.tracingTasks[tag.TaskID].Tags[i].ID) && t.tracingTasks[tag.TaskID].Tags[i].TaskID == old(t.tracingTasks[tag.TaskID].Tags[i].TaskID) && t.tracingTasks[tag.TaskID].Tags[i].What == old(t.tracingTasks[tag.TaskID].Tags[i].What) && t.tracingTasks[tag.TaskID].Tags[i].Time == old(t.tracingTasks[tag.TaskID].Tags[i].Time))
+//@   label C36.tag.others.lists
+//@   ensures forall k uint64 :: k != tag.TaskID && (k in t.tracingTasks) ==> (forall i in 0..len(t.tracingTasks[k].Tags) :: t.tracingTasks[k].Tags[i].ID == old(t.tracingTasks[k].Tags[i].ID) && t.tracingTasks[k].Tags[i].TaskID == old(t.tracingTasks[k].Tags[i].TaskID) && t.tracingTasks[k].Tags[i].What == old(t.tracingTasks[k].Tags[i].What) && t.tracingTasks[k].Tags[i].Time == old(t.tracingTasks[k].Tags[i].Time))
+//@   label C36.tag.inv.sep
+//@   ensures c36Sep(t)
 //@   label C36.tag.others
 //@   ensures c36Others(t, tag.TaskID)
 //@   label C36.tag.nolog
@@ -205,6 +216,10 @@ package tracing
 //@   ensures old(milestone.TaskID in t.tracingTasks) ==> (forall i in 0..old(len(c36Ms(t, milestone.TaskID))) :: c36Ms(t, milestone.TaskID)[i].ID == old(c36Ms(t, milestone.TaskID)[i].ID) && c36Ms(t, milestone.TaskID)[i].TaskID == old(c36Ms(t, milestone.TaskID)[i].TaskID) && c36Ms(t, milestone.TaskID)[i].Time == old(c36Ms(t, milestone.TaskID)[i].Time) && c36Ms(t, milestone.TaskID)[i].Kind == old(c36Ms(t, milestone.TaskID)[i].Kind) && c36Ms(t, milestone.TaskID)[i].What == old(c36Ms(t, milestone.TaskID)[i].What))
 //@   label C36.ms.oneperinstant
 //@   ensures c36MsDistinct(t, milestone.TaskID)
+//@   label C36.ms.others.lists
+//@   ensures forall k uint64 :: k != milestone.TaskID && (k in t.tracingTasks) ==> (forall i in 0..len(t.tracingTasks[k].Milestones) :: t.tracingTasks[k].Milestones[i].ID == old(t.tracingTasks[k].Milestones[i].ID) && t.tracingTasks[k].Milestones[i].TaskID == old(t.tracingTasks[k].Milestones[i].TaskID) && t.tracingTasks[k].Milestones[i].Time == old(t.tracingTasks[k].Milestones[i].Time) && t.tracingTasks[k].Milestones[i].Kind == old(t.tracingTasks[k].Milestones[i].Kind) && t.tracingTasks[k].Milestones[i].What == old(t.tracingTasks[k].Milestones[i].What))
+//@   label C36.ms.inv.sep
+//@   ensures c36Sep(t)
 //@   label C36.ms.others
 //@   ensures c36Others(t, milestone.TaskID)
 //@   label C36.ms.nolog
@@ -220,6 +235,8 @@ package tracing
 //@   loop 0: invariant -1 <= rangeindex && rangeindex < len(task.Milestones) && task != nil && (milestone.TaskID in t.tracingTasks) && t.tracingTasks[milestone.TaskID] == task
 //@   label C36.ms.loop.same
 //@   loop 0: invariant (old(milestone.TaskID in t.tracingTasks) ? task == old(t.tracingTasks[milestone.TaskID]) && ref(task.Milestones) == old(ref(t.tracingTasks[milestone.TaskID].Milestones)) && off(task.Milestones) == old(off(t.tracingTasks[milestone.TaskID].Milestones)) && len(task.Milestones) == old(len(t.tracingTasks[milestone.TaskID].Milestones)) : fresh(task) && len(task.Milestones) == 0 && !task.toRecord && task.ID == milestone.TaskID) && c36Others(t, milestone.TaskID)
+//@   label C36.ms.loop.lastdiffers
+//@   loop 0: invariant rangeindex >= 0 ==> task.Milestones[rangeindex].Time != milestone.Time     // ground instance of the next one
 //@   label C36.ms.loop.noneyet
 //@   loop 0: invariant forall i in 0..rangeindex + 1 :: task.Milestones[i].Time != milestone.Time
 
@@ -267,6 +284,8 @@ package tracing
 //@   ensures t.isTracing == old(t.isTracing)
 //@   label C36.end.inv.shape
 //@   ensures c36Shape(t)
+//@   label C36.end.inv.sep
+//@   ensures c36Sep(t)
 //@   label C36.end.inv.in
 //@   ensures forall k uint64 :: c36KIn(t, k, k != task.ID && c36Started[k])
 //@   label C36.end.inv.torecord
@@ -282,6 +301,8 @@ package tracing
 //@   loop 0: invariant c36LogKept()
 //@   label C36.end.loop0.tracerow
 //@   loop 0: invariant hastype(c36Row(traceTableName, c36N0(traceTableName)), "taskTableEntry") && c36Rec[traceTableName][c36N0(traceTableName)] == ifaceval(t.backend) && c36TraceRow(c36N0(traceTableName)).ID == task.ID && c36TraceRow(c36N0(traceTableName)).ParentID == old(t.tracingTasks[task.ID].ParentID) && c36TraceRow(c36N0(traceTableName)).Kind == old(t.tracingTasks[task.ID].Kind) && c36TraceRow(c36N0(traceTableName)).What == old(t.tracingTasks[task.ID].What) && c36TraceRow(c36N0(traceTableName)).Location == old(t.tracingTasks[task.ID].Location)
+//@   label C36.end.loop0.lastrow
+//@   loop 0: invariant rangeindex >= 0 ==> c36MsRowOK(c36N0(milestoneTableName) + rangeindex, old(t.tracingTasks[task.ID].Milestones)[rangeindex], ifaceval(t.backend))     // ground instance of the next one (a broken row is then refuted, not just undecided)
 //@   label C36.end.loop0.rows
 //@   loop 0: invariant forall n in 0..rangeindex + 1 :: c36MsRowOK(c36N0(milestoneTableName) + n, old(t.tracingTasks[task.ID].Milestones)[n], ifaceval(t.backend))
 //@   label C36.end.loop1.shape
@@ -294,5 +315,37 @@ package tracing
 //@   loop 1: invariant hastype(c36Row(traceTableName, c36N0(traceTableName)), "taskTableEntry") && c36Rec[traceTableName][c36N0(traceTableName)] == ifaceval(t.backend) && c36TraceRow(c36N0(traceTableName)).ID == task.ID && c36TraceRow(c36N0(traceTableName)).ParentID == old(t.tracingTasks[task.ID].ParentID) && c36TraceRow(c36N0(traceTableName)).Kind == old(t.tracingTasks[task.ID].Kind) && c36TraceRow(c36N0(traceTableName)).What == old(t.tracingTasks[task.ID].What) && c36TraceRow(c36N0(traceTableName)).Location == old(t.tracingTasks[task.ID].Location)
 //@   label C36.end.loop1.msrows
 //@   loop 1: invariant forall n in 0..old(len(t.tracingTasks[task.ID].Milestones)) :: c36MsRowOK(c36N0(milestoneTableName) + n, old(t.tracingTasks[task.ID].Milestones)[n], ifaceval(t.backend))
+//@   label C36.end.loop1.lastrow
+//@   loop 1: invariant rangeindex >= 0 ==> c36TagRowOK(c36N0(tagTableName) + rangeindex, old(t.tracingTasks[task.ID].Tags)[rangeindex], ifaceval(t.backend))     // ground instance of the next one
 //@   label C36.end.loop1.rows
 //@   loop 1: invariant forall n in 0..rangeindex + 1 :: c36TagRowOK(c36N0(tagTableName) + n, old(t.tracingTasks[task.ID].Tags)[n], ifaceval(t.backend))
+
+// ---- Terminate: closes an open tracing window (one segment row) and drops the tasks still in flight: a task that has
+//      not ended before termination is never recorded ----
+// TRUSTED (standard library / runtime): the stack dump only fills the local buffer; printing has no effect on the heap.
+//@ ext runtime.Stack(buf, all)
+//@   trusted
+//@   ensures 0 <= result && result <= len(buf)
+//@   assigns elems(buf)
+//@ ext fmt.Println(a)
+//@   trusted
+//@   assigns nothing
+//@ fn captureBacktrace
+//@   property C36
+//@   assigns nothing
+
+//@ fn (*DBTracer).Terminate
+//@   property C36
+//@   label C36.term.terminated
+//@   ensures t.terminated
+//@   label C36.term.again.noop
+//@   ensures old(t.terminated) ==> c36LogSame() && t.tracingTasks == old(t.tracingTasks) && t.isTracing == old(t.isTracing) && c36AllSame(t)
+//@   label C36.term.dropped
+//@   ensures !old(t.terminated) ==> t.tracingTasks == nil && !t.isTracing
+//@   label C36.term.segment
+//@   ensures !old(t.terminated) ==> c36Cnt == (old(t.isTracing) ? upd(old(c36Cnt), segmentTableName, c36N0(segmentTableName) + 1) : old(c36Cnt))
+//@   label C36.term.segment.row
+//@   ensures !old(t.terminated) && old(t.isTracing) ==> hastype(c36Row(segmentTableName, c36N0(segmentTableName)), "segmentTableEntry") && c36Rec[segmentTableName][c36N0(segmentTableName)] == ifaceval(t.backend)
+//@   label C36.term.logkept
+//@   ensures c36LogKept()
+//@   assigns t.terminated, t.firstTerminateBacktrace, t.isTracing, t.tracingTasks, c36Cnt, c36Rec, c36Typ, c36Val
